@@ -32,6 +32,7 @@ fn strip_caps(w: &str) -> String {
     }
     out
 }
+use crate::SIZE_PREFIX_DIFF;
 /// one step on the real code: returns (ret, after bytes, probe)
 pub fn exec_step(t: &dyn TypeOps, ar: &mut Arena, place: Place, pre: &[u8], op: &Op) -> (String, Vec<u8>, String, bool, bool) {
     let (start, sl) = ar.place(pre, place, FILL);
@@ -41,11 +42,19 @@ pub fn exec_step(t: &dyn TypeOps, ar: &mut Arena, place: Place, pre: &[u8], op: 
     let after = sl.to_vec();
     let p = probe_str(t, sl);
     let remap = remap_same(t, sl);
+    if !size_prefix_same(t, sl) { SIZE_PREFIX_DIFF.with(|c| c.set(true)); }
     let intact = ar.outside_intact(start, len, FILL);
     (ret, after, p, intact, remap)
 }
 /// the value's own bytes (`as_bytes()`) validate and map to the same state again: same extent, same `size()`, same content and
 /// the same capacities
+/// the first `size()` bytes alone validate and map to the same content with the same `size()` (C05, after an operation)
+pub fn size_prefix_same(t: &dyn TypeOps, sl: &[u8]) -> bool {
+    guarded(|| match t.probe(sl).res {
+        Ok((_, _, z, _, w)) => z <= sl.len() && matches!(t.probe(&sl[..z]).res, Ok((_, _, z2, _, w2)) if z2 == z && w2 == w),
+        Err(_) => true,
+    }).unwrap_or(true)
+}
 pub fn remap_same(t: &dyn TypeOps, sl: &[u8]) -> bool {
     guarded(|| match t.probe(sl).res {
         Ok((v, _, z, wc, _)) => v <= sl.len() && matches!(t.probe(&sl[..v]).res, Ok((v2, _, z2, wc2, _)) if v2 == v && z2 == z && wc2 == wc),
@@ -195,7 +204,9 @@ pub fn run(reg: &[Box<dyn TypeOps>], cfg: &Cfg, out: &mut dyn Write) {
                     };
                     if let Some(it) = item {
                         let small = gen_init(e, &mut rng, 1);
-                        boundary.push((700, vec![Op::FPush(small.clone()), Op::FPush(it), Op::FPush(small.clone()), Op::FPop, Op::FPush(small)]));
+                        boundary.push((700, vec![Op::FPush(small.clone()), Op::FPush(it.clone()), Op::FPush(small.clone()), Op::FPop, Op::FPush(small.clone())]));
+                        // … and the same item pushed onto an empty vector, onto one emptied by `pop`, and after `clear`
+                        boundary.push((700, vec![Op::FPush(it.clone()), Op::FPush(small.clone()), Op::FPop, Op::FPop, Op::FPush(it.clone()), Op::FClear, Op::FPush(it), Op::FPush(small)]));
                     }
                 }
             }
@@ -253,8 +264,8 @@ pub fn run(reg: &[Box<dyn TypeOps>], cfg: &Cfg, out: &mut dyn Write) {
                 if let Some(w) = &want { write!(out, " want={}", w).unwrap(); }
                 if capn != cap0 { write!(out, " CAP-CHANGED").unwrap(); }
                 if !remap { write!(out, " REMAP-DIFF").unwrap(); }
-                if !remap { write!(out, " REMAP-DIFF").unwrap(); }
-    if !intact { write!(out, " OUTSIDE-WRITTEN").unwrap(); }
+                if SIZE_PREFIX_DIFF.with(|c| c.replace(false)) { write!(out, " SIZE-PREFIX-DIFF").unwrap(); }
+                if !intact { write!(out, " OUTSIDE-WRITTEN").unwrap(); }
                 writeln!(out).unwrap();
                 if ret == "PANIC" && want.as_deref() != Some("PANIC") { break; }
                 if !p.starts_with("ok:") { break; }
@@ -279,6 +290,7 @@ pub fn exec_line(reg: &[Box<dyn TypeOps>], ar: &mut Arena, lhs: &str, out: &mut 
     let (ret, after, p, intact, remap) = exec_step(t, ar, place, &pre, &op);
     write!(out, "{} {} p={} same={}", ret, hex(&after), p, if strip_caps(&before) == strip_caps(&p) { 1 } else { 0 }).unwrap();
     if !remap { write!(out, " REMAP-DIFF").unwrap(); }
+    if SIZE_PREFIX_DIFF.with(|c| c.replace(false)) { write!(out, " SIZE-PREFIX-DIFF").unwrap(); }
     if !intact { write!(out, " OUTSIDE-WRITTEN").unwrap(); }
     writeln!(out).unwrap();
 }
